@@ -1,12 +1,20 @@
 package main
 
-import "fmt"
+import (
+	"fmt"
+	"os"
+)
 
 func init() { drivers["SELFTEST"] = runSelfTest }
 
 // runSelfTest: engine self-tests (determinism of replay; environment-model
 // conformance tests are in conform_*.go). A failure is an engine error.
 func runSelfTest(c *Ctx) {
+	untouchedDeep = c.Tier == "thorough"
+	if os.Getenv("VERIF_PHASE") == "untouched" {
+		runUntouchedPhase(c)
+		return
+	}
 	path := []Op{{Op: "ins", V: 1, K: 2}, {Op: "ins", V: 2, K: 3}, {Op: "upd", Slot: 0, V: 3, K: 0}, {Op: "reopen"}, {Op: "del", Slot: 1}}
 	for _, cfg := range cfgQuick {
 		var keys [2]string
@@ -26,6 +34,7 @@ func runSelfTest(c *Ctx) {
 		c.Distinct("states", keys[0])
 	}
 	selfTestExtra(c)
+	compareUntouched(c)
 	c.Sample(map[string]interface{}{"history": path})
 	c.Meta(map[string]interface{}{"rule": "engine self-tests"})
 }
